@@ -18,7 +18,7 @@ PROP = "C11"
 MANIFEST = dict(
     level="model_checking", design_ref="DESIGN.md 8 (C11), 7 (Mixer / Render)",
     technique="TLA+ model of the renderer/mixer chunking (TLC) against a buffer-size-free reference + TLC-generated scenes and (buffer size, partition) pairs rendered repeatedly on the real library + TLC trace validation of the equality relation P_C11",
-    text="Chunk independence of the mixer's buffer handling is model-checked (Mixer.tla against P_C02, whose expected output mentions neither the internal buffer size nor the callback sizes). On the implementation, TLC-generated scenes of real sounds (resampled, looping, panned), nested tracks, a send and any built-in effect are rendered under three buffer-size/partition pairs each (incl. 1-frame callbacks, non-multiples and a single large callback) and TLC checks the renderings against each other: bit-exact, or within 1e-6 where a recursive effect (filter, EQ, delay, reverb, compressor) is in the scene.",
+    text="Chunk independence of the mixer's buffer handling is model-checked (Mixer.tla against P_C02, whose expected output mentions neither the internal buffer size nor the callback sizes). On the implementation, TLC-generated scenes of real sounds (resampled, looping, panned), nested tracks, a send and any built-in effect are rendered under three buffer-size/partition pairs each (incl. 1-frame callbacks, non-multiples and a single large callback) and TLC checks the renderings against each other: bit-exact, or within 1e-6 where a recursive effect (filter, EQ, delay, reverb, compressor) is in the scene. Scenes include pannings that are not round in binary, sounds with a stretch of exact silence, and older, shorter sounds that end in the middle of a chunk while younger ones go on.",
     note="Parameters are constant and no commands are in flight (as in the statement). Scenes are sampled from the generator's space by TLC simulation; 256 frames at 8 kHz per rendering (1024 in the thorough tier).")
 
 
